@@ -9,6 +9,18 @@ _PENDING = "no registered check yet at this commit (model and correspondence und
 NOT_APPLICABLE = {f"C{i:02d}": _PENDING for i in range(1, 21)}
 
 META = {
+    "C20": {
+        "text": ("The statement is a Lean function (eval nested q doc: same-element evaluation for conjunctions whose leaves all "
+                 "address one nested array, per-parent combination otherwise, per-clause existential without nesting). Theorems for "
+                 "every document and query: hits are parents each at most once; a nested same-array conjunction matches iff one "
+                 "element satisfies all conjuncts; a nested match of a leaf conjunction implies the un-nested match. Real searches on "
+                 "scorch under both mappings after separate update/delete batches, DocCount and match-all are compared with the "
+                 "specification on every run. Two clauses deviate on the unchanged tree and are listed as known findings."),
+        "design_ref": "DESIGN.md section 4, C20",
+        "note": ("trusted: Lean kernel, Go harness, zapx nested-document support. The nested conjunction searcher and the collector's "
+                 "nested fold are not modelled operationally; their behaviour is compared with the specification."),
+        "technique": "Lean 4 executable specification + theorems; I/O-equality correspondence of nested searches on scorch",
+    },
     "C18": {
         "text": ("PARTIAL. Proved in Lean for all coordinates: interleaving two 32-bit coordinates and de-interleaving (even bits, and "
                  "odd bits after a shift) is the identity, the encoding is injective, Morton cells nest and a cell is the pair of "
